@@ -27,6 +27,12 @@ def rejects():
     R["boolean"] += [("uint16_instance_two", ft.uint16(2))]
     # the decimal TEXT of an integer that is a valid address is not an address
     R["net.ipaddress"] += [("digit_text_of_valid_int", "16909060"), ("digit_text_of_valid_int6", str(2**100))]
+    # standard-library objects that are NOT addresses / networks although they subclass or resemble them
+    import ipaddress as _ip
+
+    R["net.ipaddress"] += [("interface_object", _ip.ip_interface("192.168.1.10/24")), ("interface6_object", _ip.ip_interface("2001:db8::1/64")), ("network_object", _ip.ip_network("10.0.0.0/8"))]
+    R["net.IPAddress"] += [("interface_object", _ip.ip_interface("192.168.1.10/24"))]
+    R["net.ipnetwork"] += [("interface_with_host_bits", _ip.ip_interface("10.0.0.1/8"))]
     return R
 
 
@@ -120,6 +126,7 @@ def run(tier):
     vc = gen.value_classes()
     REJ, UNS, CONV = rejects(), unspecified(), conversions()
     traces, metas = [], []
+    Dother = RecordDescriptor("t/other_member", [("string", "o")])
     types = [(t, False) for t in vc] + [(t, True) for t in gen.LISTABLE]
     for t, islist in types:
         tn = t + ("[]" if islist else "")
@@ -158,7 +165,7 @@ def run(tier):
         if not thorough and len(cands) > 9:
             keep = [c for c in cands if c[2] != "accept"] + [c for c in cands if c[2] == "accept"][:5]
             cands = keep[:16]
-        ops_kinds = ["construct", "assign", "replace"]
+        ops_kinds = ["construct", "assign", "replace", "groupassign"]
         hist = []
         for c in cands:                                  # every candidate through every operation, on a fresh record
             for op in ops_kinds:
@@ -167,6 +174,7 @@ def run(tier):
         for c in cands:                                  # and after a good value is in place (failed assign must keep it)
             for g in good:
                 hist.append([("construct", g), ("assign", c), ("assign", g)])
+                hist.append([("construct", g), ("groupassign", c)])
                 hist.append([("construct", g), ("replace", c)])
         for good_v, twin in TWINS.get(t, []) if not islist else []:
             gc, tc = ("twin-valid", good_v, "unspec"), ("twin-malformed", twin, "reject")
@@ -189,6 +197,11 @@ def run(tier):
                         rec = new
                     elif op == "assign":
                         rec.f = v
+                    elif op == "groupassign":
+                        # the same assignment made through a grouped record that holds the record
+                        from flow.record import GroupedRecord
+
+                        GroupedRecord("g/x", [rec, Dother("o", _generated=gen.GEN)]).f = v
                     else:
                         rec = rec._replace(f=v)
                 except Exception as e:
